@@ -14,6 +14,7 @@ void mr_ctr(const mr_blk *b, const uint8_t ctr0[16], int cbytes, const uint8_t *
 void mr_ofb(const mr_blk *b, const uint8_t iv[16], const uint8_t *in, size_t inlen, uint8_t *out);
 void mr_cfb(const mr_blk *b, int enc, size_t s, const uint8_t iv[16], const uint8_t *in, size_t inlen, uint8_t *out);
 void mr_ghash(const uint8_t h[16], const uint8_t *a, size_t alen, const uint8_t *c, size_t clen, uint8_t out[16]);
+void mr_gcm_iv_for_j0(const mr_blk *b, const uint8_t j0[16], uint8_t iv[16]);
 int mr_gcm(const mr_blk *b, int enc, const uint8_t *iv, size_t ivlen, const uint8_t *aad, size_t aadlen, const uint8_t *in, size_t inlen, uint8_t *out, uint8_t *tag, size_t taglen);
 int mr_ccm(const mr_blk *b, int enc, const uint8_t *nonce, size_t n, const uint8_t *aad, size_t aadlen, const uint8_t *in, size_t inlen, uint8_t *out, uint8_t *tag, size_t t);
 int mr_xts(const mr_blk *k1, const mr_blk *k2, int enc, int dbl, const uint8_t tweak[16], const uint8_t *in, size_t inlen, uint8_t *out);
